@@ -32,11 +32,18 @@ Proof.
 Qed.
 
 (* ---- invariant ------------------------------------------------------------------------------------------- *)
-Definition pool_ok (tr : list event) (hc : hostclient) : Prop :=
-  forall c, In c (hc_pool hc) -> In (EDial (c_id c) (hc_addr hc) (hc_tls hc)) tr.
+(* the kind of connection host client hc gets from dialAddr *)
+Definition hck (hc : hostclient) : connkind := dialAddr (hc_tls hc) (hc_wt hc).
 
-Definition map_ok (tls : bool) (tr : list event) (m : hmap) : Prop :=
-  forall k hc, In (k, hc) m -> hc_tls hc = tls /\ hc_addr hc = AddMissingPort k tls /\ pool_ok tr hc.
+(* both branches of dialAddr (lazy tls.Client, explicit handshake helper) hand back a TLS connection exactly when isTLS *)
+Lemma kind_tls_dialAddr t wt : kind_tls (dialAddr t wt) = t.
+Proof. destruct t, wt; reflexivity. Qed.
+
+Definition pool_ok (tr : list event) (hc : hostclient) : Prop :=
+  forall c, In c (hc_pool hc) -> In (EDial (c_id c) (hc_addr hc) (hck hc)) tr.
+
+Definition map_ok (cwt tls : bool) (tr : list event) (m : hmap) : Prop :=
+  forall k hc, In (k, hc) m -> hc_tls hc = tls /\ hc_wt hc = cwt /\ hc_addr hc = AddMissingPort k tls /\ pool_ok tr hc.
 
 Definition fresh (tr : list event) (next : N) : Prop :=
   forall cid a t, In (EDial cid a t) tr -> cid < next.
@@ -44,46 +51,46 @@ Definition fresh (tr : list event) (next : N) : Prop :=
 Definition dials_fun (tr : list event) : Prop :=
   forall cid a t a' t', In (EDial cid a t) tr -> In (EDial cid a' t') tr -> a = a' /\ t = t'.
 
-Definition hc_rel (tr : list event) (p : bytes * bool) (hc : hostclient) : Prop :=
-  hc_addr hc = fst p /\ hc_tls hc = snd p /\ pool_ok tr hc.
+Definition hc_rel (tr : list event) (p : hcfg) (hc : hostclient) : Prop :=
+  hc_addr hc = fst (fst p) /\ hc_tls hc = snd (fst p) /\ hc_wt hc = snd p /\ pool_ok tr hc.
 
 (* where a written request may have gone *)
-Definition write_ok (hcs0 : list (bytes * bool)) (tr : list event) (cid : N) (r : req) : Prop :=
-  exists addr, In (EDial cid addr (isHTTPS (r_scheme r))) tr /\
+Definition write_ok (cwt : bool) (hcs0 : list hcfg) (tr : list event) (cid : N) (r : req) : Prop :=
+  exists addr wt, In (EDial cid addr (dialAddr (isHTTPS (r_scheme r)) wt)) tr /\
     match r_via r with
-    | ViaClient => addr = AddMissingPort (r_host r) (isHTTPS (r_scheme r))
-    | _ => exists i, nth_error hcs0 i = Some (addr, isHTTPS (r_scheme r))
+    | ViaClient => addr = AddMissingPort (r_host r) (isHTTPS (r_scheme r)) /\ wt = cwt
+    | _ => exists i, nth_error hcs0 i = Some (addr, isHTTPS (r_scheme r), wt)
     end.
 
-Record Inv (hcs0 : list (bytes * bool)) (w : world) (tr : list event) : Prop := {
-  inv_m : map_ok false tr (w_m w);
-  inv_ms : map_ok true tr (w_ms w);
+Record Inv (hcs0 : list hcfg) (w : world) (tr : list event) : Prop := {
+  inv_m : map_ok (w_cwt w) false tr (w_m w);
+  inv_ms : map_ok (w_cwt w) true tr (w_ms w);
   inv_hcs : Forall2 (hc_rel tr) hcs0 (w_hcs w);
   inv_fresh : fresh tr (w_next w);
   inv_fun : dials_fun tr;
-  inv_writes : forall cid r, In (EWrite cid r) tr -> write_ok hcs0 tr cid r }.
+  inv_writes : forall cid r, In (EWrite cid r) tr -> write_ok (w_cwt w) hcs0 tr cid r }.
 
 (* monotonicity in the trace *)
 Lemma pool_ok_mono tr evs hc : pool_ok tr hc -> pool_ok (tr ++ evs) hc.
 Proof. intros H c Hc. apply in_or_app. left. now apply H. Qed.
-Lemma map_ok_mono tls tr evs m : map_ok tls tr m -> map_ok tls (tr ++ evs) m.
-Proof. intros H k hc Hin. destruct (H k hc Hin) as (A & B & C). repeat split; auto using pool_ok_mono. Qed.
+Lemma map_ok_mono cwt tls tr evs m : map_ok cwt tls tr m -> map_ok cwt tls (tr ++ evs) m.
+Proof. intros H k hc Hin. destruct (H k hc Hin) as (A & B & C & D). repeat split; auto using pool_ok_mono. Qed.
 Lemma hc_rel_mono tr evs p hc : hc_rel tr p hc -> hc_rel (tr ++ evs) p hc.
-Proof. intros (A & B & C). repeat split; auto using pool_ok_mono. Qed.
+Proof. intros (A & B & C & D). repeat split; auto using pool_ok_mono. Qed.
 Lemma hcs_mono tr evs l0 l : Forall2 (hc_rel tr) l0 l -> Forall2 (hc_rel (tr ++ evs)) l0 l.
 Proof. induction 1; constructor; auto using hc_rel_mono. Qed.
-Lemma write_ok_mono hcs0 tr evs cid r : write_ok hcs0 tr cid r -> write_ok hcs0 (tr ++ evs) cid r.
-Proof. intros (a & H1 & H2). exists a. split; [apply in_or_app; now left | exact H2]. Qed.
+Lemma write_ok_mono cwt hcs0 tr evs cid r : write_ok cwt hcs0 tr cid r -> write_ok cwt hcs0 (tr ++ evs) cid r.
+Proof. intros (a & wt & H1 & H2). exists a, wt. split; [apply in_or_app; now left | exact H2]. Qed.
 
 (* ---- one attempt ------------------------------------------------------------------------------------------ *)
 (* what a (sequence of) attempt(s) of host client hc on request r guarantees about the events it appends *)
 Definition step_ok (hc : hostclient) (r : req) (tr : list event) (next : N)
            (hc1 : hostclient) (next1 : N) (evs : list event) : Prop :=
-  hc_addr hc1 = hc_addr hc /\ hc_tls hc1 = hc_tls hc /\
+  hc_addr hc1 = hc_addr hc /\ hc_tls hc1 = hc_tls hc /\ hc_wt hc1 = hc_wt hc /\
   pool_ok (tr ++ evs) hc1 /\ fresh (tr ++ evs) next1 /\ dials_fun (tr ++ evs) /\
-  (forall cid a t, In (EDial cid a t) evs -> a = hc_addr hc /\ t = hc_tls hc) /\
+  (forall cid a t, In (EDial cid a t) evs -> a = hc_addr hc /\ t = hck hc) /\
   (forall cid r', In (EWrite cid r') evs ->
-     r' = r /\ hc_tls hc = isHTTPS (r_scheme r) /\ In (EDial cid (hc_addr hc) (hc_tls hc)) (tr ++ evs)).
+     r' = r /\ hc_tls hc = isHTTPS (r_scheme r) /\ In (EDial cid (hc_addr hc) (hck hc)) (tr ++ evs)).
 
 Lemma fresh_weaken tr n m : fresh tr n -> n <= m -> fresh tr m.
 Proof. intros H Hle cid a t Hin. specialize (H cid a t Hin). lia. Qed.
@@ -97,7 +104,7 @@ Lemma step_ok_quiet hc r tr next evs :
   quiet evs -> pool_ok tr hc -> fresh tr next -> dials_fun tr -> step_ok hc r tr next hc next evs.
 Proof.
   intros Hq Hpool Hfresh Hfun. unfold step_ok.
-  split; [reflexivity|]. split; [reflexivity|].
+  split; [reflexivity|]. split; [reflexivity|]. split; [reflexivity|].
   split; [apply pool_ok_mono; exact Hpool|].
   split; [intros cid a t Hin; apply quiet_dial in Hin; eauto|].
   split; [intros cid a t a' t' H1 H2; apply quiet_dial in H1, H2; eauto|].
@@ -118,53 +125,53 @@ Proof.
   - apply negb_false_iff, eqb_prop in Hchk.
     destruct (hc_pool hc) as [|c rest] eqn:Hp.
     + (* dial a new connection *)
-      set (c := {| c_id := next; c_addr := hc_addr hc; c_tls := hc_tls hc |}).
-      assert (Hfresh' : fresh (tr ++ [EDial next (hc_addr hc) (hc_tls hc); EWrite next r]) (next + 1)).
+      fold (hck hc).
+      assert (Hfresh' : fresh (tr ++ [EDial next (hc_addr hc) (hck hc); EWrite next r]) (next + 1)).
       { intros cid a t Hin. apply in_app_or in Hin as [Hin|[Hin|[Hin|[]]]].
         - specialize (Hfresh _ _ _ Hin). lia.
         - injection Hin as <- _ _. lia.
         - discriminate. }
-      assert (Hfun' : dials_fun (tr ++ [EDial next (hc_addr hc) (hc_tls hc); EWrite next r])).
+      assert (Hfun' : dials_fun (tr ++ [EDial next (hc_addr hc) (hck hc); EWrite next r])).
       { intros cid a t a' t' H1 H2.
         apply in_app_or in H1 as [H1|[H1|[H1|[]]]]; apply in_app_or in H2 as [H2|[H2|[H2|[]]]]; try discriminate.
         - eapply Hfun; eauto.
         - injection H2 as <- <- <-. specialize (Hfresh _ _ _ H1). lia.
         - injection H1 as <- <- <-. specialize (Hfresh _ _ _ H2). lia.
         - injection H1 as <- <- <-. injection H2 as <- <-. auto. }
-      assert (Hd : forall cid a t, In (EDial cid a t) [EDial next (hc_addr hc) (hc_tls hc); EWrite next r] ->
-                                   a = hc_addr hc /\ t = hc_tls hc).
+      assert (Hd : forall cid a t, In (EDial cid a t) [EDial next (hc_addr hc) (hck hc); EWrite next r] ->
+                                   a = hc_addr hc /\ t = hck hc).
       { intros cid a t [H|[H|[]]]; [injection H as _ <- <-; auto | discriminate]. }
-      assert (Hw : forall cid r', In (EWrite cid r') [EDial next (hc_addr hc) (hc_tls hc); EWrite next r] ->
+      assert (Hw : forall cid r', In (EWrite cid r') [EDial next (hc_addr hc) (hck hc); EWrite next r] ->
                  r' = r /\ hc_tls hc = isHTTPS (r_scheme r) /\
-                 In (EDial cid (hc_addr hc) (hc_tls hc)) (tr ++ [EDial next (hc_addr hc) (hc_tls hc); EWrite next r])).
+                 In (EDial cid (hc_addr hc) (hck hc)) (tr ++ [EDial next (hc_addr hc) (hck hc); EWrite next r])).
       { intros cid r' [H|[H|[]]]; [discriminate|]. injection H as <- <-. repeat split; auto.
         apply in_or_app. right. now left. }
       cbn [app].
-      destruct rep; intros [= <- <- <- <- <-]; unfold step_ok; cbn [hc_addr hc_tls hc_pool];
-        (split; [reflexivity|]); (split; [reflexivity|]);
+      destruct rep; intros [= <- <- <- <- <-]; unfold step_ok, hck; cbn [hc_addr hc_tls hc_wt hc_pool]; fold (hck hc);
+        (split; [reflexivity|]); (split; [reflexivity|]); (split; [reflexivity|]);
         (split; [|split; [exact Hfresh'|split; [exact Hfun'|split; [exact Hd|exact Hw]]]]).
       * intros c' [<-|[]]. cbn. apply in_or_app. right. now left.
       * intros c' [].
       * intros c' [].
     + (* reuse the first idle connection *)
-      assert (Hc : In (EDial (c_id c) (hc_addr hc) (hc_tls hc)) tr) by (apply Hpool; rewrite Hp; now left).
+      assert (Hc : In (EDial (c_id c) (hc_addr hc) (hck hc)) tr) by (apply Hpool; rewrite Hp; now left).
       assert (Hfresh' : fresh (tr ++ [EWrite (c_id c) r]) next).
       { intros cid a t Hin. apply in_app_or in Hin as [Hin|[Hin|[]]]; [eauto|discriminate]. }
       assert (Hfun' : dials_fun (tr ++ [EWrite (c_id c) r])).
       { intros cid a t a' t' H1 H2.
         apply in_app_or in H1 as [H1|[H1|[]]]; [|discriminate].
         apply in_app_or in H2 as [H2|[H2|[]]]; [|discriminate]. eapply Hfun; eauto. }
-      assert (Hd : forall cid a t, In (EDial cid a t) [EWrite (c_id c) r] -> a = hc_addr hc /\ t = hc_tls hc).
+      assert (Hd : forall cid a t, In (EDial cid a t) [EWrite (c_id c) r] -> a = hc_addr hc /\ t = hck hc).
       { intros cid a t [H|[]]. discriminate. }
       assert (Hw : forall cid r', In (EWrite cid r') [EWrite (c_id c) r] ->
                  r' = r /\ hc_tls hc = isHTTPS (r_scheme r) /\
-                 In (EDial cid (hc_addr hc) (hc_tls hc)) (tr ++ [EWrite (c_id c) r])).
+                 In (EDial cid (hc_addr hc) (hck hc)) (tr ++ [EWrite (c_id c) r])).
       { intros cid r' [H|[]]. injection H as <- <-. repeat split; auto. apply in_or_app. now left. }
-      assert (Hrest : forall c', In c' rest -> In (EDial (c_id c') (hc_addr hc) (hc_tls hc)) (tr ++ [EWrite (c_id c) r])).
+      assert (Hrest : forall c', In c' rest -> In (EDial (c_id c') (hc_addr hc) (hck hc)) (tr ++ [EWrite (c_id c) r])).
       { intros c' Hin. apply in_or_app. left. apply Hpool. rewrite Hp. now right. }
       cbn [app].
-      destruct rep; intros [= <- <- <- <- <-]; unfold step_ok; cbn [hc_addr hc_tls hc_pool];
-        (split; [reflexivity|]); (split; [reflexivity|]);
+      destruct rep; intros [= <- <- <- <- <-]; unfold step_ok, hck; cbn [hc_addr hc_tls hc_wt hc_pool]; fold (hck hc);
+        (split; [reflexivity|]); (split; [reflexivity|]); (split; [reflexivity|]);
         (split; [|split; [exact Hfresh'|split; [exact Hfun'|split; [exact Hd|exact Hw]]]]).
       * intros c' Hin. apply in_app_or in Hin as [Hin|[<-|[]]]; [now apply Hrest|]. apply in_or_app. now left.
       * exact Hrest.
@@ -176,13 +183,14 @@ Lemma step_ok_trans hc r tr next hc1 next1 evs hc2 next2 evs2 :
   step_ok hc1 r (tr ++ evs) next1 hc2 next2 evs2 ->
   step_ok hc r tr next hc2 next2 (evs ++ evs2).
 Proof.
-  intros (A1 & B1 & C1 & D1 & E1 & F1 & G1) (A2 & B2 & C2 & D2 & E2 & F2 & G2).
+  intros (A1 & B1 & W1 & C1 & D1 & E1 & F1 & G1) (A2 & B2 & W2 & C2 & D2 & E2 & F2 & G2).
+  assert (HK : hck hc1 = hck hc) by (unfold hck; congruence).
   unfold step_ok. rewrite app_assoc.
-  split; [congruence|]. split; [congruence|]. split; [exact C2|]. split; [exact D2|]. split; [exact E2|]. split.
+  split; [congruence|]. split; [congruence|]. split; [congruence|]. split; [exact C2|]. split; [exact D2|]. split; [exact E2|]. split.
   - intros cid a t H. apply in_app_or in H as [H|H]; [apply (F1 _ _ _ H) | destruct (F2 _ _ _ H); split; congruence].
   - intros cid r' H. apply in_app_or in H as [H|H].
     + destruct (G1 _ _ H) as (X1 & X2 & X3). split; [exact X1|]. split; [exact X2|]. apply in_or_app. now left.
-    + destruct (G2 _ _ H) as (X1 & X2 & X3). split; [exact X1|]. split; [congruence|]. rewrite A1, B1 in X3. exact X3.
+    + destruct (G2 _ _ H) as (X1 & X2 & X3). split; [exact X1|]. split; [congruence|]. rewrite A1, HK in X3. exact X3.
 Qed.
 
 Lemma hc_attempts_ok fuel : forall hc r reps tr next hc1 next1 evs out,
@@ -200,7 +208,7 @@ Proof.
       destruct f as [|f']; [intros [= <- <- <- <-]; exact Hs|].
       destruct (hc_attempts (S f') hca r (tl reps) nexta) as [[[hcb nextb] evsb] outb] eqn:Hr.
       intros [= <- <- <- <-].
-      pose proof Hs as (A1 & B1 & C1 & D1 & E1 & F1 & G1).
+      pose proof Hs as (A1 & B1 & W1 & C1 & D1 & E1 & F1 & G1).
       eapply step_ok_trans; [exact Hs|].
       eapply IH; eauto.
 Qed.
@@ -263,85 +271,97 @@ Proof.
 Qed.
 
 (* ---- the doers preserve the invariant ------------------------------------------------------------------------ *)
+Lemma quiet_inv hcs0 w tr evs : quiet evs -> Inv hcs0 w tr -> Inv hcs0 w (tr ++ evs).
+Proof.
+  intros Hq HI. destruct HI. constructor; auto using map_ok_mono, hcs_mono.
+  - intros cid a t Hin. apply quiet_dial in Hin; eauto.
+  - intros cid a t a' t' H1 H2. apply quiet_dial in H1, H2; eauto.
+  - intros cid r' Hin. apply in_app_or in Hin as [Hin|Hin]; [apply write_ok_mono; auto|].
+    destruct (Hq _ Hin) as (r0 & x & E). discriminate.
+Qed.
+
+Lemma quiet_one r e : quiet [ERefuse r e].
+Proof. intros x [<-|[]]. eauto. Qed.
+
 Lemma client_do_inv hcs0 w tr r reps w1 evs out :
-  r_via r = ViaClient -> Inv hcs0 w tr -> client_do w r reps = (w1, evs, out) -> Inv hcs0 w1 (tr ++ evs).
+  r_via r = ViaClient -> Inv hcs0 w tr -> client_do w r reps = (w1, evs, out) ->
+  Inv hcs0 w1 (tr ++ evs) /\ w_cwt w1 = w_cwt w.
 Proof.
   intros Hvia HI. unfold client_do.
-  assert (Hrefuse : forall e, Inv hcs0 w (tr ++ [ERefuse r e])).
-  { intros e. destruct HI. constructor; auto using map_ok_mono, hcs_mono.
-    - intros cid a t Hin. apply in_app_or in Hin as [Hin|[Hin|[]]]; [eauto|discriminate].
-    - intros cid a t a' t' H1 H2. apply in_app_or in H1 as [H1|[H1|[]]]; [|discriminate].
-      apply in_app_or in H2 as [H2|[H2|[]]]; [|discriminate]. eauto.
-    - intros cid r' Hin. apply in_app_or in Hin as [Hin|[Hin|[]]]; [|discriminate]. apply write_ok_mono. auto. }
-  destruct (contains COMMA (r_host r)); [intros [= <- <- <-]; apply Hrefuse|].
-  destruct (negb (isHTTPS (r_scheme r)) && negb (isHTTP (r_scheme r))); [intros [= <- <- <-]; apply Hrefuse|].
+  destruct (contains COMMA (r_host r)); [intros [= <- <- <-]; split; [apply quiet_inv; auto using quiet_one | reflexivity]|].
+  destruct (negb (isHTTPS (r_scheme r)) && negb (isHTTP (r_scheme r)));
+    [intros [= <- <- <-]; split; [apply quiet_inv; auto using quiet_one | reflexivity]|].
   set (tls := isHTTPS (r_scheme r)).
   set (m := if tls then w_ms w else w_m w).
   set (hc := match lookup (r_host r) m with Some hc => hc
-             | None => {| hc_addr := AddMissingPort (r_host r) tls; hc_tls := tls; hc_pool := [] |} end).
-  assert (Hm : map_ok tls tr m) by (destruct HI; subst m; destruct tls; auto).
-  assert (Hhc : hc_tls hc = tls /\ hc_addr hc = AddMissingPort (r_host r) tls /\ pool_ok tr hc).
+             | None => {| hc_addr := AddMissingPort (r_host r) tls; hc_tls := tls; hc_wt := w_cwt w; hc_pool := [] |} end).
+  assert (Hm : map_ok (w_cwt w) tls tr m) by (destruct HI; subst m; destruct tls; auto).
+  assert (Hhc : hc_tls hc = tls /\ hc_wt hc = w_cwt w /\ hc_addr hc = AddMissingPort (r_host r) tls /\ pool_ok tr hc).
   { subst hc. destruct (lookup (r_host r) m) eqn:El.
     - apply lookup_in in El. apply (Hm _ _ El).
     - cbn. repeat split. intros c []. }
-  destruct Hhc as (Htls & Haddr & Hpool).
+  destruct Hhc as (Htls & Hwt & Haddr & Hpool).
   destruct (hc_do hc r reps (w_next w)) as [[[hc1 next1] evs1] out1] eqn:Hdo.
-  intros [= <- <- <-].
+  intros [= <- <- <-]. split; [|reflexivity].
   destruct HI as [Im Ims Ihcs Ifresh Ifun Iwr].
-  pose proof (hc_attempts_ok _ _ _ _ _ _ _ _ _ _ Hpool Ifresh Ifun Hdo) as (A & B & C & D & E & F & G).
-  assert (Hm1 : map_ok tls (tr ++ evs1) (upd (r_host r) hc1 m)).
+  pose proof (hc_attempts_ok _ _ _ _ _ _ _ _ _ _ Hpool Ifresh Ifun Hdo) as (A & B & W & C & D & E & F & G).
+  assert (Hm1 : map_ok (w_cwt w) tls (tr ++ evs1) (upd (r_host r) hc1 m)).
   { intros k' hc' Hin. apply upd_in in Hin as [Hin|[-> ->]].
-    - apply (map_ok_mono _ _ _ _ Hm _ _ Hin).
-    - split; [congruence|]. split; [congruence|]. exact C. }
-  constructor; cbn [w_m w_ms w_hcs w_next]; auto using hcs_mono.
+    - apply (map_ok_mono _ _ _ _ _ Hm _ _ Hin).
+    - split; [congruence|]. split; [congruence|]. split; [congruence|]. exact C. }
+  constructor; cbn [w_cwt w_m w_ms w_hcs w_next]; auto using hcs_mono.
   - destruct tls eqn:Et; [apply map_ok_mono; auto | exact Hm1].
   - destruct tls eqn:Et; [exact Hm1 | apply map_ok_mono; auto].
   - intros cid r' Hin. apply in_app_or in Hin as [Hin|Hin]; [apply write_ok_mono; auto|].
-    destruct (G _ _ Hin) as (-> & Heq & Hd). exists (hc_addr hc). rewrite Htls in Hd. fold tls. split; [exact Hd|].
-    rewrite Hvia. exact Haddr.
+    destruct (G _ _ Hin) as (-> & Heq & Hd). exists (hc_addr hc), (hc_wt hc).
+    unfold hck in Hd. rewrite Htls in Hd. fold tls. split; [exact Hd|].
+    rewrite Hvia. split; [exact Haddr | exact Hwt].
 Qed.
 
 Lemma host_do_inv i hcs0 w tr r reps w1 evs out :
-  r_via r <> ViaClient -> Inv hcs0 w tr -> host_do i w r reps = (w1, evs, out) -> Inv hcs0 w1 (tr ++ evs).
+  r_via r <> ViaClient -> Inv hcs0 w tr -> host_do i w r reps = (w1, evs, out) ->
+  Inv hcs0 w1 (tr ++ evs) /\ w_cwt w1 = w_cwt w.
 Proof.
   intros Hvia HI. unfold host_do.
   destruct (nth_error (w_hcs w) i) as [hc|] eqn:En.
   - destruct (hc_do hc r reps (w_next w)) as [[[hc1 next1] evs1] out1] eqn:Hdo.
-    intros [= <- <- <-].
+    intros [= <- <- <-]. split; [|reflexivity].
     destruct HI as [Im Ims Ihcs Ifresh Ifun Iwr].
-    destruct (Forall2_nth _ _ _ _ _ Ihcs En) as (p & Hp & Hrel). destruct Hrel as (Ra & Rt & Rp).
-    pose proof (hc_attempts_ok _ _ _ _ _ _ _ _ _ _ Rp Ifresh Ifun Hdo) as (A & B & C & D & E & F & G).
-    constructor; cbn [w_m w_ms w_hcs w_next]; auto using map_ok_mono.
+    destruct (Forall2_nth _ _ _ _ _ Ihcs En) as (p & Hp & Hrel). destruct Hrel as (Ra & Rt & Rw & Rp).
+    pose proof (hc_attempts_ok _ _ _ _ _ _ _ _ _ _ Rp Ifresh Ifun Hdo) as (A & B & W & C & D & E & F & G).
+    constructor; cbn [w_cwt w_m w_ms w_hcs w_next]; auto using map_ok_mono.
     + eapply Forall2_set_nth; eauto using hc_rel_mono.
-      intros x Hx _. rewrite Hp in Hx. injection Hx as <-. unfold hc_rel. split; [congruence|]. split; [congruence|]. exact C.
+      intros x Hx _. rewrite Hp in Hx. injection Hx as <-. unfold hc_rel.
+      split; [congruence|]. split; [congruence|]. split; [congruence|]. exact C.
     + intros cid r' Hin. apply in_app_or in Hin as [Hin|Hin]; [apply write_ok_mono; auto|].
-      destruct (G _ _ Hin) as (-> & Heq & Hd). exists (hc_addr hc). rewrite Heq in Hd. split; [exact Hd|].
-      assert (X : exists j, nth_error hcs0 j = Some (hc_addr hc, isHTTPS (r_scheme r))).
-      { exists i. rewrite Hp. destruct p as [pa pt]. cbn in *. congruence. }
+      destruct (G _ _ Hin) as (-> & Heq & Hd). exists (hc_addr hc), (hc_wt hc).
+      unfold hck in Hd. rewrite Heq in Hd. split; [exact Hd|].
+      assert (X : exists j, nth_error hcs0 j = Some (hc_addr hc, isHTTPS (r_scheme r), hc_wt hc)).
+      { exists i. rewrite Hp. destruct p as [[pa pt] pw]. cbn [fst snd] in Ra, Rt, Rw. rewrite <- Ra, <- Rt, <- Rw, <- Heq. reflexivity. }
       destruct (r_via r); [contradiction|exact X|exact X].
-  - intros [= <- <- <-]. destruct HI. constructor; auto using map_ok_mono, hcs_mono.
-    + intros cid a t Hin. apply in_app_or in Hin as [Hin|[Hin|[]]]; [eauto|discriminate].
-    + intros cid a t a' t' H1 H2. apply in_app_or in H1 as [H1|[H1|[]]]; [|discriminate].
-      apply in_app_or in H2 as [H2|[H2|[]]]; [|discriminate]. eauto.
-    + intros cid r' Hin. apply in_app_or in Hin as [Hin|[Hin|[]]]; [|discriminate]. apply write_ok_mono. auto.
+  - intros [= <- <- <-]. split; [apply quiet_inv; auto using quiet_one | reflexivity].
 Qed.
 
+Definition InvC (hcs0 : list hcfg) (cwt : bool) (w : world) (tr : list event) : Prop := Inv hcs0 w tr /\ w_cwt w = cwt.
+
 Lemma follow_inv (P : req -> Prop) (d : doer) hcs0 :
-  (forall w tr r reps w1 evs out, P r -> Inv hcs0 w tr -> d w r reps = (w1, evs, out) -> Inv hcs0 w1 (tr ++ evs)) ->
+  (forall w tr r reps w1 evs out, P r -> Inv hcs0 w tr -> d w r reps = (w1, evs, out) ->
+                                  Inv hcs0 w1 (tr ++ evs) /\ w_cwt w1 = w_cwt w) ->
   forall hops w tr count maxred w1 evs out,
     Forall (fun h => P (fst h)) hops -> Inv hcs0 w tr ->
-    follow d w hops count maxred = (w1, evs, out) -> Inv hcs0 w1 (tr ++ evs).
+    follow d w hops count maxred = (w1, evs, out) -> Inv hcs0 w1 (tr ++ evs) /\ w_cwt w1 = w_cwt w.
 Proof.
   intros Hd. induction hops as [|[r reps] rest IH]; intros w tr count maxred w1 evs out HP HI; cbn [follow].
   - intros [= <- <- <-]. now rewrite app_nil_r.
   - inversion HP as [|? ? Hr Hrest]; subst. cbn in Hr.
     destruct (d w r reps) as [[wa evsa] outa] eqn:Hda.
-    pose proof (Hd _ _ _ _ _ _ _ Hr HI Hda) as HIa.
-    destruct outa; [|intros [= <- <- <-]; exact HIa].
-    destruct rest as [|h rest']; [intros [= <- <- <-]; exact HIa|].
-    destruct (count + 1 >? maxred)%Z; [intros [= <- <- <-]; exact HIa|].
+    pose proof (Hd _ _ _ _ _ _ _ Hr HI Hda) as (HIa & Hca).
+    destruct outa; [|intros [= <- <- <-]; auto].
+    destruct rest as [|h rest']; [intros [= <- <- <-]; auto|].
+    destruct (count + 1 >? maxred)%Z; [intros [= <- <- <-]; auto|].
     destruct (follow d wa (h :: rest') (count + 1)%Z maxred) as [[wb evsb] outb] eqn:Hf.
-    intros [= <- <- <-]. rewrite app_assoc. eapply IH; eauto.
+    intros [= <- <- <-]. rewrite app_assoc.
+    destruct (IH _ _ _ _ _ _ _ Hrest HIa Hf) as (X & Y). split; [exact X | congruence].
 Qed.
 
 (* histories whose requests carry the tag of the API they are submitted through *)
@@ -353,7 +373,7 @@ Definition tagged (c : call) : Prop :=
   end.
 
 Lemma run_call_inv hcs0 w tr c w1 evs out :
-  tagged c -> Inv hcs0 w tr -> run_call w c = (w1, evs, out) -> Inv hcs0 w1 (tr ++ evs).
+  tagged c -> Inv hcs0 w tr -> run_call w c = (w1, evs, out) -> Inv hcs0 w1 (tr ++ evs) /\ w_cwt w1 = w_cwt w.
 Proof.
   destruct c as [maxred hops|i maxred hops|i [r reps]]; cbn [run_call tagged]; intros Ht HI H.
   - eapply (follow_inv (fun r => r_via r = ViaClient) client_do); eauto. intros; eapply client_do_inv; eauto.
@@ -362,19 +382,21 @@ Proof.
 Qed.
 
 Lemma run_inv hcs0 : forall cs w tr w1 evs outs,
-  Forall tagged cs -> Inv hcs0 w tr -> run w cs = (w1, evs, outs) -> Inv hcs0 w1 (tr ++ evs).
+  Forall tagged cs -> Inv hcs0 w tr -> run w cs = (w1, evs, outs) -> Inv hcs0 w1 (tr ++ evs) /\ w_cwt w1 = w_cwt w.
 Proof.
   induction cs as [|c rest IH]; intros w tr w1 evs outs Ht HI; cbn [run].
   - intros [= <- <- <-]. now rewrite app_nil_r.
   - inversion Ht; subst.
     destruct (run_call w c) as [[wa evsa] outa] eqn:Hc.
     destruct (run wa rest) as [[wb evsb] outsb] eqn:Hr.
-    intros [= <- <- <-]. rewrite app_assoc. eapply IH; eauto. eapply run_call_inv; eauto.
+    intros [= <- <- <-]. rewrite app_assoc.
+    destruct (run_call_inv _ _ _ _ _ _ _ H1 HI Hc) as (HIa & Hca).
+    destruct (IH _ _ _ _ _ H2 HIa Hr) as (X & Y). split; [exact X | congruence].
 Qed.
 
-Lemma init_inv hcs0 : Inv hcs0 (init hcs0) [].
+Lemma init_inv cwt hcs0 : Inv hcs0 (init cwt hcs0) [].
 Proof.
-  constructor; cbn [init w_m w_ms w_hcs w_next].
+  constructor; cbn [init w_cwt w_m w_ms w_hcs w_next].
   - intros k hc [].
   - intros k hc [].
   - induction hcs0 as [|p l IH]; cbn [map]; constructor; auto. unfold hc_rel, mk_hc. cbn. repeat split. intros c [].
@@ -383,28 +405,31 @@ Proof.
   - intros cid r [].
 Qed.
 
-Theorem trace_inv hcs cs : Forall tagged cs -> exists w, Inv hcs w (trace hcs cs).
+Theorem trace_inv cwt hcs cs : Forall tagged cs -> exists w, Inv hcs w (trace cwt hcs cs) /\ w_cwt w = cwt.
 Proof.
-  intros Ht. unfold trace. destruct (run (init hcs) cs) as [[w evs] outs] eqn:Hr. exists w. cbn.
-  change evs with ([] ++ evs). eapply run_inv; eauto using init_inv.
+  intros Ht. unfold trace. destruct (run (init cwt hcs) cs) as [[w evs] outs] eqn:Hr. exists w. cbn.
+  change evs with ([] ++ evs). eapply run_inv in Hr; eauto using init_inv.
 Qed.
 
 (* ---- the specification's observation of a model trace ------------------------------------------------------- *)
 Definition via_clientb (r : req) : bool := match r_via r with ViaClient => true | _ => false end.
 Definition obs_dials (tr : list event) : list dialrec :=
-  flat_map (fun e => match e with EDial c a t => [{| d_cid := c; d_addr := a; d_tls := t |}] | _ => [] end) tr.
+  flat_map (fun e => match e with EDial c a k => [{| d_cid := c; d_addr := a; d_tls := kind_tls k |}] | _ => [] end) tr.
 Definition obs_writes (tr : list event) : list writerec :=
   flat_map (fun e => match e with
                      | EWrite c r => [{| wr_cid := c; wr_rid := r_id r; wr_scheme := r_scheme r; wr_host := r_host r;
                                          wr_via_client := via_clientb r |}]
                      | _ => [] end) tr.
 
-Lemma obs_dials_in tr c a t : In {| d_cid := c; d_addr := a; d_tls := t |} (obs_dials tr) <-> In (EDial c a t) tr.
+Lemma obs_dials_in tr d : In d (obs_dials tr) <-> exists k, In (EDial (d_cid d) (d_addr d) k) tr /\ d_tls d = kind_tls k.
 Proof.
   unfold obs_dials. rewrite in_flat_map. split.
-  - intros (e & He & Hin). destruct e; cbn in Hin; try contradiction. destruct Hin as [[= -> -> ->]|[]]. exact He.
-  - intros H. exists (EDial c a t). split; [exact H | now left].
+  - intros (e & He & Hin). destruct e; cbn in Hin; try contradiction. destruct Hin as [<-|[]]. cbn. eauto.
+  - intros (k & H & E). exists (EDial (d_cid d) (d_addr d) k). split; [exact H|]. left. destruct d. cbn in *. congruence.
 Qed.
+
+Lemma obs_dial_intro tr c a k : In (EDial c a k) tr -> In {| d_cid := c; d_addr := a; d_tls := kind_tls k |} (obs_dials tr).
+Proof. intros H. apply obs_dials_in. exists k. cbn. auto. Qed.
 
 Lemma obs_writes_in tr w : In w (obs_writes tr) ->
   exists r, In (EWrite (wr_cid w) r) tr /\ wr_scheme w = r_scheme r /\ wr_host w = r_host r /\ wr_via_client w = via_clientb r.
@@ -413,43 +438,64 @@ Proof.
   destruct Hin as [<-|[]]. cbn. eauto.
 Qed.
 
-Theorem https_only hcs cs : Forall tagged cs ->
-  https_only_on_tls (obs_dials (trace hcs cs)) (obs_writes (trace hcs cs)).
+(* for EVERY timeout configuration: cwt = (Client.WriteTimeout != 0), and each stand-alone HostClient's own flag in hcs *)
+Theorem https_only cwt hcs cs : Forall tagged cs ->
+  https_only_on_tls (obs_dials (trace cwt hcs cs)) (obs_writes (trace cwt hcs cs)).
 Proof.
-  intros Ht w Hw Hs. destruct (trace_inv hcs cs Ht) as (wd & HI).
+  intros Ht w Hw Hs. destruct (trace_inv cwt hcs cs Ht) as (wd & HI & _).
   destruct (obs_writes_in _ _ Hw) as (r & Hin & Es & Eh & Ev).
-  destruct (inv_writes _ _ _ HI _ _ Hin) as (addr & Hd & Hv).
-  rewrite isHTTPS_spec, <- Es, Hs in Hd, Hv. exists addr. split; [apply obs_dials_in; exact Hd|].
-  rewrite Ev. unfold via_clientb. destruct (r_via r); try discriminate. intros _. rewrite Hv, Eh. apply AddMissingPort_spec.
+  destruct (inv_writes _ _ _ HI _ _ Hin) as (addr & wt & Hd & Hv).
+  rewrite isHTTPS_spec, <- Es, Hs in Hd, Hv. exists addr. split.
+  - apply obs_dial_intro in Hd. rewrite kind_tls_dialAddr in Hd. exact Hd.
+  - rewrite Ev. unfold via_clientb. destruct (r_via r); try discriminate. intros _. destruct Hv as (-> & _). rewrite Eh.
+    apply AddMissingPort_spec.
 Qed.
 
-Theorem http_never hcs cs : Forall tagged cs ->
-  http_never_on_tls (obs_dials (trace hcs cs)) (obs_writes (trace hcs cs)).
+Theorem http_never cwt hcs cs : Forall tagged cs ->
+  http_never_on_tls (obs_dials (trace cwt hcs cs)) (obs_writes (trace cwt hcs cs)).
 Proof.
-  intros Ht w Hw Hs. destruct (trace_inv hcs cs Ht) as (wd & HI).
+  intros Ht w Hw Hs. destruct (trace_inv cwt hcs cs Ht) as (wd & HI & _).
   destruct (obs_writes_in _ _ Hw) as (r & Hin & Es & Eh & Ev).
-  destruct (inv_writes _ _ _ HI _ _ Hin) as (addr & Hd & Hv).
-  rewrite isHTTPS_spec, <- Es, Hs in Hd, Hv. exists addr. split; [apply obs_dials_in; exact Hd|].
-  rewrite Ev. unfold via_clientb. destruct (r_via r); try discriminate. intros _. rewrite Hv, Eh. apply AddMissingPort_spec.
+  destruct (inv_writes _ _ _ HI _ _ Hin) as (addr & wt & Hd & Hv).
+  rewrite isHTTPS_spec, <- Es, Hs in Hd, Hv. exists addr. split.
+  - apply obs_dial_intro in Hd. rewrite kind_tls_dialAddr in Hd. exact Hd.
+  - rewrite Ev. unfold via_clientb. destruct (r_via r); try discriminate. intros _. destruct Hv as (-> & _). rewrite Eh.
+    apply AddMissingPort_spec.
 Qed.
 
-Theorem dials_functional hcs cs : Forall tagged cs -> dial_functional (obs_dials (trace hcs cs)).
+Theorem dials_functional cwt hcs cs : Forall tagged cs -> dial_functional (obs_dials (trace cwt hcs cs)).
 Proof.
-  intros Ht [c1 a1 t1] [c2 a2 t2] H1 H2 Hc. cbn in Hc. subst c2.
-  destruct (trace_inv hcs cs Ht) as (wd & HI).
-  apply obs_dials_in in H1, H2. destruct (inv_fun _ _ _ HI _ _ _ _ _ H1 H2) as [-> ->]. reflexivity.
+  intros Ht d1 d2 H1 H2 Hc. destruct (trace_inv cwt hcs cs Ht) as (wd & HI & _).
+  apply obs_dials_in in H1 as (k1 & H1 & E1). apply obs_dials_in in H2 as (k2 & H2 & E2). rewrite Hc in H1.
+  destruct (inv_fun _ _ _ HI _ _ _ _ _ H1 H2) as [Ea Ek]. subst k2.
+  destruct d1, d2. cbn in *. congruence.
+Qed.
+
+(* which branch of dialAddr produced the connection a request travelled on: the lazy tls.Client wrapper when the sending client's
+   WriteTimeout is 0, the explicitly handshaked wrapper otherwise — a TLS connection in both cases, never the raw one *)
+Theorem https_write_kind cwt hcs cs cid r : Forall tagged cs ->
+  In (EWrite cid r) (trace cwt hcs cs) -> https_scheme (r_scheme r) = true ->
+  exists (addr : bytes) (wt : bool), In (EDial cid addr (if wt then KTLSHandshaked else KTLSLazy)) (trace cwt hcs cs) /\
+                  (r_via r = ViaClient -> wt = cwt) /\
+                  (r_via r <> ViaClient -> exists i, nth_error hcs i = Some (addr, true, wt)).
+Proof.
+  intros Ht Hin Hs. destruct (trace_inv cwt hcs cs Ht) as (wd & HI & Hc).
+  destruct (inv_writes _ _ _ HI _ _ Hin) as (addr & wt & Hd & Hx).
+  rewrite isHTTPS_spec, Hs in Hd, Hx. exists addr, wt. split; [destruct wt; exact Hd|].
+  destruct (r_via r); split; intros Hv; try congruence; try contradiction;
+    first [ destruct Hx as (_ & ->); exact Hc | exact Hx ].
 Qed.
 
 (* requests that went through a stand-alone HostClient (directly, after redirects, or through the LBClient)
    were carried by a HostClient whose IsTLS equals the request's https-ness, on a connection to its Addr *)
-Theorem hostclient_writes_match hcs cs cid r : Forall tagged cs ->
-  In (EWrite cid r) (trace hcs cs) -> r_via r <> ViaClient ->
-  exists i addr, nth_error hcs i = Some (addr, https_scheme (r_scheme r)) /\
-                 In (EDial cid addr (https_scheme (r_scheme r))) (trace hcs cs).
+Theorem hostclient_writes_match cwt hcs cs cid r : Forall tagged cs ->
+  In (EWrite cid r) (trace cwt hcs cs) -> r_via r <> ViaClient ->
+  exists i addr wt, nth_error hcs i = Some (addr, https_scheme (r_scheme r), wt) /\
+                    In (EDial cid addr (dialAddr (https_scheme (r_scheme r)) wt)) (trace cwt hcs cs).
 Proof.
-  intros Ht Hin Hv. destruct (trace_inv hcs cs Ht) as (wd & HI).
-  destruct (inv_writes _ _ _ HI _ _ Hin) as (addr & Hd & Hx).
-  destruct (r_via r); [contradiction| |]; destruct Hx as (i & Hi); exists i, addr; rewrite <- isHTTPS_spec; auto.
+  intros Ht Hin Hv. destruct (trace_inv cwt hcs cs Ht) as (wd & HI & _).
+  destruct (inv_writes _ _ _ HI _ _ Hin) as (addr & wt & Hd & Hx).
+  destruct (r_via r); [contradiction| |]; destruct Hx as (i & Hi); exists i, addr, wt; rewrite <- isHTTPS_spec; auto.
 Qed.
 
 (* ... and a mismatching request is refused on the spot, also in the middle of a redirect chain:
@@ -457,16 +503,9 @@ Qed.
 Theorem host_refuses i w hc r reps rest count maxred :
   nth_error (w_hcs w) i = Some hc -> hc_tls hc <> https_scheme (r_scheme r) ->
   follow (host_do i) w ((r, reps) :: rest) count maxred =
-    ({| w_m := w_m w; w_ms := w_ms w; w_hcs := set_nth i hc (w_hcs w); w_next := w_next w |},
+    ({| w_cwt := w_cwt w; w_m := w_m w; w_ms := w_ms w; w_hcs := set_nth i hc (w_hcs w); w_next := w_next w |},
      [ERefuse r ESchemeMismatch], OErr ESchemeMismatch).
 Proof.
   intros Hn Hm. cbn [follow]. unfold host_do. rewrite Hn.
   rewrite hc_do_refuses by (rewrite isHTTPS_spec; exact Hm). reflexivity.
-Qed.
-
-Lemma set_nth_same {A} (l : list A) i x : nth_error l i = Some x -> set_nth i x l = l.
-Proof.
-  revert i. induction l as [|y l IH]; intros [|j] H; cbn in *; try discriminate.
-  - now injection H as ->.
-  - now rewrite IH.
 Qed.
